@@ -310,6 +310,11 @@ def parseOp (op : String) : P Node.NodeOp := do
   | "check_group_commit_consistent" => pure Node.NodeOp.checkGroupCommitConsistent
   | "set_max_apply_unpersisted_log_limit" => do let x ← nat; pure (Node.NodeOp.setMaxApplyUnpersistedLogLimit x)
   | "set_max_committed_size_per_ready" => do let x ← nat; pure (Node.NodeOp.setMaxCommittedSizePerReady x)
+  | "on_entries_fetched" => do
+    let to ← nat
+    let term ← nat
+    let aggr ← bool
+    pure (Node.NodeOp.onEntriesFetched to term aggr)
   | _ => failure
 
 /-- the result token(s) of a call, as the harness prints them -/
@@ -362,16 +367,6 @@ def handleRN (st : Option RNState) (cmd : List String) : Option RNState × Strin
       match parseRnd rnd with
       | none => (none, "bad-op")
       | some rnd =>
-        if op == "on_entries_fetched" then
-          -- `on_entries_fetched <to> <term> <aggressively>`
-          match (do let a ← nat; let b ← nat; let c ← bool; pure (a, b, c) : P (Nat × Nat × Bool)).run rest with
-          | some ((to, term, aggr), []) =>
-            match Node.onEntriesFetched { st with raft := { st.raft with nextRand := rnd } } to term aggr with
-            | .ok (res, st') => (some st', fmtRes res ++ " | " ++ view st')
-            | .err _ => (none, "panic")
-            | .panic _ => (none, "panic")
-          | _ => (none, "bad-op")
-        else
         match (parseOp op).run rest with
         | some (nop, []) =>
           match Node.call st rnd nop with
